@@ -861,6 +861,11 @@ def step (cx : Ctx) (w : World) (ws : List String) : StepOut :=
   | none =>
   match ws with
   | ["tnew", r] => stepCore cx w ["new", r]
+  | ["treserve", r, n] => stepCore cx w ["reserve", r, n]
+  | ["treserve_exact", r, n] => stepCore cx w ["reserve_exact", r, n]
+  | ["tshrink_to_fit", r] => stepCore cx w ["shrink_to_fit", r]
+  | ["tcapacity", r] => stepCore cx w ["capacity", r]
+  | ["twith_capacity", r, n] => stepCore cx w ["with_capacity", r, n]
   | ["tlen", r, _kind] =>
     match parseReg r with
     | some r =>
